@@ -82,7 +82,8 @@ P == CASE Profile = "c04q" ->
              idirs |-> {<<Iu("inc"), Iu("ext")>>, <<Iu("ext"), Iu("inc")>>},
              forced |-> {<<>>}, nents |-> 1, plats |-> <<"p1">>]
       [] Profile = "c18" ->
-            [slots |-> <<<<"src", "h.h">>, <<"inc", "h.h">>, <<"inc", "g.h">>, <<"ext", "g.h">>>>,
+            \* (root/h.h: a header directly in the analysis root, which is on no search path of its own)
+            [slots |-> <<<<"src", "h.h">>, <<"inc", "h.h">>, <<"inc", "g.h">>, <<"ext", "g.h">>, <<"root", "h.h">>>>,
              bodies |-> {"def", "guard", "once", "miss", "unk", "incq", "testX"},
              stmts |-> {"qh", "ah", "qg", "ag", "missq", "missa", "unk", "dead", "mq", "ma", "defX", "inch"},
              maxmain |-> 3, nmains |-> 2,
@@ -113,7 +114,7 @@ NEntries == P.nents
 Plats == P.plats
 
 C == [k |-> "code"]
-Dirs == {"src", "inc", "sys", "ext", "bld"}
+Dirs == {"src", "inc", "sys", "ext", "bld", "root"}
 Mk(d) == "M_" \o d
 G(n) == IF n = "h.h" THEN "G_h" ELSE "G_g"
 Other(n) == IF n = "h.h" THEN "g.h" ELSE "h.h"
@@ -253,7 +254,7 @@ Hash == (Len(ents) + Cardinality(DOMAIN files) * 3 +
 
 \* ---- C06: what the reports must show (one physical line per item in the plain rendering) --------
 DirPath(d) == CASE d = "src" -> <<"src">> [] d = "inc" -> <<"inc">> [] d = "sys" -> <<"sys", "include">>
-                [] d = "bld" -> <<"build">> [] OTHER -> <<d>>
+                [] d = "bld" -> <<"build">> [] d = "root" -> <<>> [] OTHER -> <<d>>
 PlatSetOf == {ents[i].plat : i \in 1..Len(ents)}
 AttrOf(p) == UNION {Run(ents[i]).attr : i \in {j \in 1..Len(ents) : ents[j].plat = p}}
 LinesFor(plats) ==
